@@ -12,7 +12,7 @@ from typing import Any, Dict, List, Optional, Tuple
 from icv import tlc
 
 DEF_SWITCHES = ["SwNoOwnEmptyInvList", "SwKeepBasePre", "SwSnapAnyChecker", "SwDropForeign", "SwWrapByLast",
-                "SwRebindWrapped", "SwShareGroups", "SwRecollapse", "SwCloneAdoptsInherited", "SwShadow"]
+                "SwRebindWrapped", "SwShareGroups", "SwRecollapse", "SwCloneAdoptsInherited", "SwLateInvAppendsToBase", "SwShadow"]
 DEF_ALL_OFF = {n: False for n in DEF_SWITCHES}
 DEF_INVARIANTS = ["EffPreEqRef", "EffPostEqRef", "EffSnapEqRef", "EffInvEqRef", "RejectedExactly", "NoSharedInvList",
                   "SingleChecker", "ForeignKept", "RegisteredOnce"]
@@ -194,6 +194,10 @@ class DefRuntime:
         cls = self.classes[ph["k"]]
         d = ph["d"]
         try:
+            if d["d"] == "invariant":
+                on = self.hist["con"][d["c"] - 1]["on"]
+                ic.invariant(self.cond(d["c"], "inv"), check_on=getattr(ic.InvariantCheckEvent, on))(cls)
+                return "ok"
             raw = inspect.getattr_static(cls, ph["name"])
             deco = ic.require(self.cond(d["c"], "pre")) if d["d"] == "require" else ic.ensure(self.cond(d["c"], "post"))
             if isinstance(raw, property):
